@@ -163,7 +163,7 @@ ExecOp ExecOp::from_json(const J &j) {
 
 J Op::to_json() const {
     J j = J::obj(); j.set("op", op);
-    if (op == "SetConfig") { j.set("mode", cfg_mode); if (cfg_mode == 0) j.set("bytes", cfg); if (cfg_mode == 2) j.set("errno", cfg_errno); }
+    if (op == "SetConfig") { j.set("mode", cfg_mode); if (cfg_mode == 0) j.set("bytes", cfg); if (cfg_mode == 2) j.set("errno", cfg_errno); if (cfg_file_mode) j.set("file_mode", cfg_file_mode); }
     else if (op == "Exec" || op == "CliConf") { j.set("call", ex.to_json()); if (roundtrip) j.set("roundtrip", true); }
     else if (op == "Batch") {
         J ts = J::arr();
@@ -178,7 +178,7 @@ J Op::to_json() const {
 }
 Op Op::from_json(const J &j) {
     Op o; o.op = j.gets("op");
-    if (o.op == "SetConfig") { o.cfg_mode = (int)j.geti("mode"); o.cfg = j.gets("bytes"); o.cfg_errno = (int)j.geti("errno", 13); }
+    if (o.op == "SetConfig") { o.cfg_mode = (int)j.geti("mode"); o.cfg = j.gets("bytes"); o.cfg_errno = (int)j.geti("errno", 13); o.cfg_file_mode = (int)j.geti("file_mode", 0); }
     else if (o.op == "Exec" || o.op == "CliConf") { o.ex = ExecOp::from_json(j.at("call")); o.roundtrip = j.getb("roundtrip"); }
     else if (o.op == "Batch") {
         for (auto &t : j.at("threads").a) { std::vector<ExecOp> c; for (auto &e : t.a) c.push_back(ExecOp::from_json(e)); o.threads.push_back(c); }
